@@ -287,6 +287,9 @@ func NewPairing(s, c string) (*Pairing, error) {
 		p.ok[v] = true
 	}
 	for i, l := range s {
+		if Letter(c[i]) != p.pair[l] {
+			return nil, errors.New("alphabet: pairing definition is not a bijection")
+		}
 		if Letter(l) != p.pair[p.pair[l]] {
 			return nil, errors.New("alphabet: pairing definition is not a bijection")
 		}
